@@ -1,10 +1,10 @@
 SPECIFICATION FairSpec
 CONSTANTS
-  MaxClocks = 3
-  Rounds = 1
-  DVals = {1, 2, 3}
-  Overlap = TRUE
+  MaxClocks = 2
+  Rounds = 2
+  DVals = {1, 2, 3, 5}
+  Overlap = FALSE
   Hist = FALSE
-  Fault = "noctx"
+  Fault = "sharedchan"
 INVARIANTS ByDeadline ExactlyOncePrefix InTimeCounted NoStuckLeak SecondCallRefused CounterRestored
 PROPERTIES NoLeak
